@@ -1,0 +1,7 @@
+//go:build verif
+
+package search
+
+// VerifSetCandSourceHook registers fn to be told the name of the
+// candidate source each query picks.
+func VerifSetCandSourceHook(fn func(string)) { candSourceHook = fn }
